@@ -6,6 +6,8 @@ Decided structural clauses:
     flows through self._update_internal before it is handed out
  D3 wherever samples and labels are rebuilt / permuted together, the same selector is applied to both
  D4 remove_samples rejects bad indices before it modifies the data
+ D6 split_labels makes one piece per label value PRESENT in the label array (the loop ranges over the distinct values of
+    self._data[1], not over a count), each piece holding exactly the samples whose label equals that value
  D5 scaling bookkeeping: an overriding / first scaling records the original extrema BEFORE the samples are transformed; a
     non-overriding scaling leaves them untouched and composes the factor; revert_scaling undoes factor then shift and resets
     every scaling attribute
@@ -263,6 +265,8 @@ def run(prog, ctx):
 
     # ------------------------------------------------------------------ D5
     check_bookkeeping(prog, ctx, ds)
+    # ------------------------------------------------------------------ D6
+    check_split_labels(prog, ctx, ds, D0, D1)
 
     # ------------------------------------------------------------------ D4
     cr = cfg_of(rs)
@@ -423,6 +427,75 @@ def check_bookkeeping(prog, ctx, ds):
     ctx.check(ok and not missing, "C18.D5", R.key_of(rv, "revert"), rv.loc(),
               "revert undoes factor then shift with non-overriding calls and afterwards resets every scaling attribute",
               why if not ok else "revert_scaling does not reset %s after undoing the scaling" % sorted(missing))
+
+
+def _inline_getters(ds, t, self_name, depth=0):
+    """self.getter() -> the getter's returned term, for single-return, argument-less methods of the class."""
+    if not isinstance(t, tuple) or depth > 3:
+        return t
+    if len(t) == 4 and t[0] == "call" and t[1][0] == "a" and t[1][1] == ("n", self_name) and not t[2] and not t[3]:
+        g = ds.methods.get(t[1][2])
+        if g is not None and g.self_name is not None:
+            body = [st for st in g.node.body if not (isinstance(st, ast.Expr) and isinstance(st.value, ast.Constant))]
+            if len(body) == 1 and isinstance(body[0], ast.Return) and body[0].value is not None:
+                rt = Terms(g.node).term(body[0].value)
+                rt = _replace(rt, ("n", g.self_name), ("n", self_name))
+                return _inline_getters(ds, rt, self_name, depth + 1)
+    return tuple(_inline_getters(ds, x, self_name, depth) for x in t)
+
+
+def _is_label_domain(t, D1):
+    """the distinct values of the label array: set(L) / np.unique(L), possibly wrapped in list / tuple / sorted"""
+    while True:
+        if t[0] == "copy" and t[1] in ("list", "tuple"):
+            t = t[2]
+        elif t[0] == "call" and t[1] in (("n", "sorted"), ("n", "list"), ("n", "tuple")) and len(t[2]) == 1:
+            t = t[2][0]
+        else:
+            break
+    if t[0] == "copy" and t[1] == "set":
+        return t[2] == D1
+    if t[0] == "call" and t[1] in (("n", "set"), ("n", "frozenset"), ("a", ("n", "np"), "unique"), ("a", ("n", "numpy"), "unique")) and len(t[2]) == 1:
+        return t[2][0] == D1
+    return False
+
+
+def check_split_labels(prog, ctx, ds, D0, D1):
+    fi = ds.methods.get("split_labels")
+    if fi is None:
+        raise AnalysisError("anchor vanished: DataSet.split_labels")
+    ctx.touch(fi)
+    tm = Terms(fi.node)
+    n = 0
+    for loop in [x for x in walk_local(fi.node) if isinstance(x, ast.For)]:
+        ctors = [c for c in R.calls_in(loop) if isinstance(c.func, ast.Name) and c.func.id == "DataSet"]
+        if not ctors:
+            continue
+        n += 1
+        it = _inline_getters(ds, tm.term(loop.iter), fi.self_name)
+        ctx.check(_is_label_domain(it, D1), "C18.D6", R.key_of(fi, "one-piece-per-present-label"), fi.loc(loop),
+                  "the pieces range over the distinct values of the label array",
+                  "split_labels iterates over `%s` (= %s), not over the distinct values of self._data[1]: samples whose label is not "
+                  "produced by that iterable (unlabelled samples, gaps, labels not starting at 0) are dropped" % (src(loop.iter), show(it)))
+        lv = tm.term(ast.Name(id=loop.target.id, ctx=ast.Load())) if isinstance(loop.target, ast.Name) else ("elem", tm.term(loop.iter))
+        for c in ctors:
+            pair = _pair(tm.term(c.args[0])) if c.args else None
+            ok = False
+            detail = "the constructor argument is not a (samples, labels) pair"
+            if pair is not None:
+                smp = _strip_array(pair[0])
+                eqs = (("cmp", "Eq", lv, ("s", D1, ("bv", "$0"))), ("cmp", "Eq", ("s", D1, ("bv", "$0")), lv))
+                by_comp = smp[0] == "comp" and smp[2] == ("bv", "$1") and len(smp[3]) == 1 \
+                    and smp[3][0][1] == ("call", ("n", "enumerate"), (D0,), ()) and len(smp[3][0][2]) == 1 and smp[3][0][2][0] in eqs
+                by_mask = smp[0] == "s" and smp[1] == D0 and smp[2] in (("cmp", "Eq", D1, lv), ("cmp", "Eq", lv, D1))
+                lab = _strip_array(pair[1])
+                lab_ok = contains(lab, lv) and not any(x[0] == "elem" and x != lv for x in subterms(lab))
+                ok = (by_comp or by_mask) and lab_ok
+                detail = "samples are %s; labels are %s" % (show(smp)[:120], show(lab)[:120])
+            ctx.check(ok, "C18.D6", R.key_of(fi, "piece-holds-its-label"), fi.loc(c),
+                      "each piece holds exactly the samples whose label equals the piece's label, labelled with it",
+                      "a piece of split_labels is not {samples whose label == the loop value} labelled with that value: %s" % detail)
+    ctx.floor("C18.D6", n, 1, "piece-building loops in split_labels")
 
 
 def _scaling_attrs(prog, ds):
